@@ -135,6 +135,7 @@ def write_config(r):
         'group_md': r.random() < .4,
         'table_id': r.choice([None, None, 'tbl-1', 'таблица "x"/7']),
         'generated_by': r.choice(['vm-check', 'gén "q" 1.0', 'a\\b']),
+        'date_variant': r.randrange(3),
     }
     if cfg['writer'] == 'save_table_default':
         cfg['date'] = 'omitted'
@@ -155,7 +156,9 @@ def write(ctx, t, cfg, path):
         t.add_group_metadata(dict(gmd), axis='observation')
         t.add_group_metadata({'graph': ('json', '{"a": [1, 2]}')},
                              axis='sample')
-    date = datetime.datetime(2021, 3, 4, 5, 6, 7, 891011) \
+    date = [datetime.datetime(2021, 3, 4, 5, 6, 7, 891011),
+            datetime.datetime(2021, 3, 4, 5, 6, 7),
+            datetime.datetime(2000, 1, 1)][cfg.get('date_variant', 0)] \
         if cfg['date'] == 'given' else None
     kw = {'compress': cfg['compress']}
     if date is not None:
